@@ -73,6 +73,10 @@ def proxy_url(p):
     return s
 
 
+# credentials in the proxy URL: reserved characters are percent-encoded there (the authority ends at the first literal
+# "/", "?" or "#", the userinfo at the last "@")
+CRED_USERS = ["bob", "a.user", "u%40x", "CORP%2Falice", "a%231", "who%3F", "100%25", "%41lice"]
+CRED_PASSWORDS = ["secret", "", "p:w", "p%40ss", "8080%2Ftcp", "what%3F", "x%23y", "50%25%3A"]
 N_ENV_NOISE = 6
 
 
@@ -111,8 +115,8 @@ class C19(Prop):
         proxy = st.fixed_dictionaries({
             "scheme": st.sampled_from(["http", "http", "https"]), "host": st.sampled_from(PROXY_HOSTS),
             "port": st.one_of(st.none(), st.sampled_from([3128, 8080, 80, 443, 1])),
-            "user": st.one_of(st.none(), st.none(), st.sampled_from(["bob", "a.user", "u%40x"])),
-            "password": st.one_of(st.none(), st.sampled_from(["secret", "", "p:w"])),
+            "user": st.one_of(st.none(), st.none(), st.sampled_from(CRED_USERS)),
+            "password": st.one_of(st.none(), st.sampled_from(CRED_PASSWORDS)),
         })
         return st.fixed_dictionaries({
             "secure": st.booleans(),
@@ -217,7 +221,17 @@ class C19(Prop):
                                    "proxy2": {"scheme": "http", "host": "squid.corp.example", "port": None, "user": None,
                                               "password": None},
                                    "reply": "200_established", "after": "eof", "seg": "whole", "fault": None}
+        def credentials():
+            for user in CRED_USERS:
+                for password in [None] + CRED_PASSWORDS:
+                    for port in (None, 3128):
+                        for secure in (False, True):
+                            spec = {"scheme": "http", "host": "proxy.test", "port": port, "user": user, "password": password}
+                            yield {"secure": secure, "host": "example.test", "port": None, "mapping": "both",
+                                   "proxy": spec, "proxy2": spec, "reply": "200_established", "after": "eof", "seg": "whole",
+                                   "fault": None}
         return [Enumeration("every_cut_of_the_proxy_reply", every_cut, exhaustive=True),
+                Enumeration("proxy_url_credentials", credentials, exhaustive=True),
                 Enumeration("explicit_mapping_x_proxy_variables_in_the_environment", environment, exhaustive=True),
                 Enumeration("every_reply_class", every_reply, exhaustive=True),
                 Enumeration("sends_from_another_thread_while_connecting", sends_while_connecting, exhaustive=True),
